@@ -58,7 +58,7 @@ func (f *Divide) Call(s *slip.Scope, args slip.List, depth int) (quot slip.Objec
 				switch td := quot.(type) {
 				case slip.Fixnum:
 					switch td {
-					case 1:
+					case 1, -1:
 						quot = td
 					case 0:
 						slip.DivisionByZeroPanic(s, depth, slip.Symbol("/"), args, "divide by zero")
@@ -91,13 +91,13 @@ func (f *Divide) Call(s *slip.Scope, args slip.List, depth int) (quot slip.Objec
 						quot = td
 					} else {
 						var z big.Rat
-						quot = (*slip.Ratio)(z.SetFrac(big.NewInt(1), (*big.Int)(td)))
+						quot = ratReduce(z.SetFrac(big.NewInt(1), (*big.Int)(td)))
 					}
 				case *slip.Ratio:
 					if (*big.Rat)(td).Sign() == 0 {
 						slip.DivisionByZeroPanic(s, depth, slip.Symbol("/"), args, "divide by zero")
 					}
-					quot = (*slip.Ratio)(new(big.Rat).Inv((*big.Rat)(td)))
+					quot = ratReduce(new(big.Rat).Inv((*big.Rat)(td)))
 				case slip.Complex:
 					quot = slip.Complex(complex(1, 0) / complex128(td))
 				}
@@ -153,7 +153,7 @@ func (f *Divide) Call(s *slip.Scope, args slip.List, depth int) (quot slip.Objec
 			if (*big.Rat)(ta).Sign() == 0 {
 				slip.DivisionByZeroPanic(s, depth, slip.Symbol("/"), args, "divide by zero")
 			}
-			quot = (*slip.Ratio)(new(big.Rat).Quo((*big.Rat)(quot.(*slip.Ratio)), (*big.Rat)(ta)))
+			quot = ratReduce(new(big.Rat).Quo((*big.Rat)(quot.(*slip.Ratio)), (*big.Rat)(ta)))
 		case slip.Complex:
 			quot = slip.Complex(complex128(quot.(slip.Complex)) / complex128(ta))
 		}
